@@ -143,6 +143,11 @@ func propC17(c *Check) {
 	lits(v0, "$2", ecdsaOK, "34", "81", "32", "v0/schnorr p2tr (OP_1 OP_DATA_32, 34 bytes)")
 	lits(v1, "$3", "", "22", "0", "20", "v1 p2wpkh (OP_0 OP_DATA_20, 22 bytes)")
 	lits(v1, "$4", "", "26", "106", "24", "v1 data output (OP_RETURN OP_DATA_24, 26 bytes)")
+	// the relayer's own (change / consolidation) address: the same three literals per key type
+	if sys := p.Fn("x/bitcoin/types.VerifySystemAddressScript"); sys != nil {
+		lits(sys, "$1", schnorrOK, "22", "0", "20", "system/ecdsa p2wpkh (OP_0 OP_DATA_20, 22 bytes)")
+		lits(sys, "$1", ecdsaOK, "34", "81", "32", "system/schnorr p2tr (OP_1 OP_DATA_32, 34 bytes)")
+	}
 	c.RequireFact(v0, "R2", "evm-address-20-bytes", lit(EQ("20", "len($1)")), nil, "")
 	c.RequireFact(v1, "R2", "evm-address-20-bytes", lit(EQ("20", "len($2)")), nil, "")
 	c.RequireFact(v1, "R2", "magic-prefix-4-bytes", lit(EQ("4", "len($1)")), nil, "")
